@@ -1572,6 +1572,9 @@ def switch_bbox_epsg_axis_order""", 'C01.a'),
                     self.cache.store_tile(tile)
                 tile.timestamp = None
                 tile.size = None""", 'C20.n', 'the reset comes after the store: the response has no validators at all / the stored ones are lost'),
+    {'id': 'M-C17b-best-srs-form-needs-D28', 'patch': 'selftest/patches/C17b-best-srs-form-with-D28-reverted.diff', 'path': 'mapproxy/source/wms.py, mapproxy/srs.py',
+     'find': '', 'replace': '', 'expect': 'report', 'rule': 'C17.b|C17.k', 'props': ['C17'],
+     'origin': 'the membership / best_srs spelling of _get_map (seeded/C17-1) together with the revert of fix D28: preferred_src answers with an equal object again'},
     E('E-C15h-swapped-compare', 'mapproxy/util/async_.py', """        if len(args) == 1:
             return self._single_call(func, args[0], use_result_objects)""", """        if 1 == len(args):
             return self._single_call(func, args[0], use_result_objects)""", 'operands swapped'),
